@@ -36,9 +36,9 @@ def run(c):
     r = c.validate("TRCUpdateTrace", "TRCUpdateTrace.cfg", trace, timeout=2400)
     _pki.judge_table(c, r, trace)
     if not c.replay:
-        _pki.need(r, "accepted_sensitive", "accepted sensitive update")
-        _pki.need(r, "accepted_regular", "accepted regular update")
-        _pki.need(r, "accepted_base", "accepted base TRC")
+        _pki.need(c, r, "accepted_sensitive", "accepted sensitive update")
+        _pki.need(c, r, "accepted_regular", "accepted regular update")
+        _pki.need(c, r, "accepted_base", "accepted base TRC")
     _pki.drift(c, r)
     n, distinct = vlib.count_distinct(
         trace, lambda e: None if e.get("ev") != "case" or not (e["wire"] or e["direct"]) else
